@@ -81,6 +81,7 @@ func buildCalls(seed uint64, env *psEnv) []callSpec {
 	// procedures bound in a fresh instance pick up that instance's operators
 	progs = append(progs, "7 3 { sub } bind exec 7 3 { add } bind exec 2 3 { mul } bind exec 4 { dup } bind exec 1 2 { exch } bind exec -5 { abs } bind exec",
 		"{ pop eq ne and or not index roll length get } bind dup length exch 0 get", "/q { 1 2 add 3 sub } bind def q /q load 2 get", "true false { and } bind exec true false { or } bind exec 5 5 { eq } bind exec 5 5 { ne } bind exec")
+	progs = append(progs, "<< /a 1 >> dup eq << >> << >> eq userdict systemdict ne << /0 1 >> << /x 1 >> eq 5 dict dup ne", "userdict userdict eq systemdict dup ne")
 	progs = append(progs, "1 2 add", "StandardEncoding 65 get", "/CIDInit /ProcSet findresource length", "errordict length", "systemdict /add known",
 		"[ 1 2 3 ] { 2 mul } forall", "/x { 1 (a) add } def x", "FontDirectory length", "(abc) dup 0 get exch length")
 	for i, p := range progs {
